@@ -233,14 +233,16 @@ def _sel_args(c):
 
 
 def _identity_guard(f) -> bool:
-    for s in ast.walk(f.node):
-        if isinstance(s, ast.If) and isinstance(s.test, ast.Compare) and len(s.test.ops) == 1 \
-                and isinstance(s.test.left, ast.Name) and s.test.left.id in f.params \
-                and isinstance(s.test.comparators[0], ast.Constant):
-            op, c = s.test.ops[0], s.test.comparators[0].value
-            if (isinstance(op, (ast.LtE, ast.Eq)) and c in (0, 1)) or (isinstance(op, ast.Lt) and c in (1, 2)):
-                return True
-    return False
+    """some `if` whose test implies `k <= 1` for a parameter k (the test itself, or a conjunct of an `and`)"""
+    def implies_single_fold(t) -> bool:
+        if isinstance(t, ast.BoolOp) and isinstance(t.op, ast.And):
+            return any(implies_single_fold(v) for v in t.values)
+        if isinstance(t, ast.Compare) and len(t.ops) == 1 and isinstance(t.left, ast.Name) and t.left.id in f.params \
+                and isinstance(t.comparators[0], ast.Constant):
+            op, c = t.ops[0], t.comparators[0].value
+            return (isinstance(op, (ast.LtE, ast.Eq)) and c in (0, 1)) or (isinstance(op, ast.Lt) and c in (1, 2))
+        return False
+    return any(isinstance(s, ast.If) and implies_single_fold(s.test) for s in ast.walk(f.node))
 
 
 def _alts(e) -> List[ast.expr]:
